@@ -93,8 +93,8 @@ CLAIMS = {
    design='4/C05', technique='Coq round-trip proof over the type/value universe, prefix-rejection lemma by induction; generated-program differential correspondence'),
  'C06': dict(
    text='Theorems C06_tag_wellformed (tag<T>() of every type of the universe is a well-formed tag of the documented grammar), C06_tag_pop_tag / C06_tag_pop_concat (the tag tokenizer splits a concatenation of tags exactly at '
-        'the boundaries, names with balanced brackets included) - Coq, closed, unbounded - and C06_visit_agrees_partial / C06_visit_agrees_any_visitor: for every value of every SIMPLE type (arithmetic, adapted enums over integral types, sequences of at most 32 elements, tuples, optionals, variants, non-empty structs; '
-        'PARTIAL: empty structs, enums over bool, recursive hand-written tags and the >32-element repeat collapsing are not in the theorem), for a plain visitor and for one that takes whole strings / has a printStruct hook,, visit(tag(t), bytes(v)) with recursion budget 2048 reports exactly callbacks(t, v) and consumes exactly the value; C06_enumerator_is_found_by_value: the enumerator reported is the first whose value is the value visited. '
+        'the boundaries, names with balanced brackets included) - Coq, closed, unbounded - and C06_visit_agrees_partial / C06_visit_agrees_any_visitor: for every value of every SIMPLE type (arithmetic, adapted enums over integral types, sequences of ANY length incl. the collapsing of more than 32 zero-size elements, tuples, optionals, variants, structs (an empty struct under the hypothesis that the complete tag holds no definition of its name); '
+        'PARTIAL: enums over bool and recursive hand-written tags are not in the theorem), for a plain visitor and for one that takes whole strings / has a printStruct hook,, visit(tag(t), bytes(v)) with recursion budget 2048 reports exactly callbacks(t, v) and consumes exactly the value; C06_enumerator_is_found_by_value: the enumerator reported is the first whose value is the value visited; C06_singular_is_zero_size: the singular check answers "zero bytes per value" exactly. '
         'The parts outside the theorem are tied by correspondence only: generated programs (tag, full callback sequence, ToString text) and hand-written recursive tags with prefix-related struct names, plus corrupted tags/bytes, run through mserialize::visit and the model.',
    note=NOTE_COMMON + 'as C04; the visit theorem is partial as stated; string-level name resolution of recursive struct references is modelled (resolve_recursive) and executed against the code but not covered by a theorem.',
    design='4/C06', technique='Coq proof on string-level tag tokenizer and visitor interpreter (fuelled, fuel = the code\'s recursion limit) + generated-program and hand-written-tag differential correspondence'),
@@ -109,10 +109,10 @@ CLAIMS = {
    design='4/C09', technique='Coq proofs on the reader/visitor model for the parts that are logic (bounds of entries, assertion-freedom of time formatting, collapse rule) + refutation witness; model-vs-code differential execution on hostile inputs under sanitizers'),
  'C07': dict(
    text='Theorems (Coq, closed): C07_source_read_back / C07_writer_read_back / C07_clock_sync_read_back (every metadata field serialized by the writer side is recovered exactly by the reader, any trailing bytes ignored), '
-        'C07_event_read_back (an event is presented with the source registered under its id, the current writer properties, its clock and its argument bytes verbatim), C07_message_of_arithmetic_arguments and C07_message_of_simple_arguments (for EVERY format string and every list of arguments of the simple universe - arithmetic, adapted enums, strings, sequences up to 32, tuples, optionals, variants, non-empty structs - '
+        'C07_event_read_back (an event is presented with the source registered under its id, the current writer properties, its clock and its argument bytes verbatim), C07_message_of_arithmetic_arguments and C07_message_of_simple_arguments (for EVERY format string and every list of arguments of the simple universe - arithmetic, adapted enums, strings, sequences of any length, tuples, optionals, variants, structs - '
         'matching its {} count, the message is the format with each {} replaced in order by text_of(value): the composition of C04 bytes, C06 visit and the ToString state machine), C07_value_text_is_documented_notation (the state machine prints strings verbatim, [a, b], (a, b), Name{ f: v }, {null}, enumerator or 0xHEX from any state), '
         'C07_float_digits_nearest (the 16 digits printed are the exact binary value rounded half-to-even). '
-        'PARTIAL: empty structs, sequences above 32 elements, the special struct renderings, recursive tags and the chain through the real macros and session are not theorems here (they rest on C04/C06/C03/C11/C14/C17 and on execution): '
+        'PARTIAL: the special struct renderings, enums over bool, recursive tags and the chain through the real macros and session are not theorems here (they rest on C04/C06/C03/C11/C14/C17 and on execution): '
         'generated C++ programs log through BINLOG_<SEV>_W/_WC and BINLOG_CREATE_SOURCE_AND_EVENT with random argument types, writers that come and go, consumes in between; printEvents of the current tree must print exactly the text the '
         'model reader+renderer gives for the log the program denotes; an independent python rendering of the documented notation is compared with code and model on typed wire-level logs.',
    note=NOTE_COMMON + 'tools/gen_log.py, gen_mser.py, gen_wire.py; python framing of entries; the programs are built with UBSan only so that allocator reuse of freed channels is observable; named-macro clocks (clockNow) are not compared.',
